@@ -956,8 +956,12 @@ static void DecodeCALLF(Word Index) {
 
     if (ChkArgCnt(1, 1)) {
         AdrWord = EvalStrIntExpressionOffs(
-                &ArgStr[1], !!(*ArgStr[1].str.p_str == '!'), UInt11, &OK);
+                &ArgStr[1], !!(*ArgStr[1].str.p_str == '!'), UInt12, &OK);
         if (OK) {
+            /* NEC: !addr11 is an address in 0800H..0FFFH, of which the
+               lower 11 bits are stored; the bare 11-bit field value
+               (0..7FFH) remains accepted */
+            AdrWord &= 0x7ff;
             BAsmCode[0] = 0x0c | (Hi(AdrWord) << 4);
             BAsmCode[1] = Lo(AdrWord);
             CodeLen     = 2;
